@@ -319,7 +319,7 @@ def gen(j, rng):
 
 def space(tier):
     sp = Space(ID)
-    sp.add("histories", 6000 if tier == "quick" else 500_000, gen)
+    sp.add("histories", 16000 if tier == "quick" else 500_000, gen)
     return sp
 
 
